@@ -5,6 +5,7 @@ package p
 
 import (
 	"fmt"
+	"math"
 	"reflect"
 	"sort"
 	"strings"
@@ -980,6 +981,9 @@ func propC07(re *rootEnv) func(*rapid.T) {
 					h.add("Alias", strings.Join(al, ", "))
 				}
 			case 1: // Write of any active branch / none into the empty object
+				if coin(t, 1, 8, fmt.Sprintf("nan%d", i)) && c07NaNWrite(t, re, h, fmt.Sprintf("w%d", i)) {
+					continue
+				}
 				src := genStruct(t, re, fmt.Sprintf("w%d", i))
 				O := re.emptyObject()
 				h.add("WriteEmpty", describeStruct(re, src))
@@ -1176,4 +1180,60 @@ func propC08(re *rootEnv) func(*rapid.T) {
 			planV = nextPlan(t, re, result, fmt.Sprintf("plan%d", i+1))
 		}
 	}
+}
+
+// c07NaNWrite: an active float / double branch whose payload is NaN — a legal, non-zero Go value that
+// the Terraform value domain cannot carry, so the result is inspected on the attribute values' own
+// flags instead of through the tftypes conversion. Returns false when the root has no such branch.
+func c07NaNWrite(t *rapid.T, re *rootEnv, h *history, label string) bool {
+	var cands []*spec.Entry
+	for _, e := range re.view.Entries {
+		if !e.Placeholder && e.F.Oneof != "" && (e.F.Kind == spec.KDouble || e.F.Kind == spec.KFloat) && !hasNullableVia(e.Via) {
+			cands = append(cands, e)
+		}
+	}
+	if len(cands) == 0 {
+		return false
+	}
+	e := cands[rapid.IntRange(0, len(cands)-1).Draw(t, label+"/nanbranch")]
+	var o *spec.OneofRef
+	for i := range re.view.Oneofs {
+		if x := &re.view.Oneofs[i]; x.Name == e.F.Oneof && x.Decl == e.Decl && sameVia(x.Via, e.Via) {
+			o = x
+		}
+	}
+	if o == nil {
+		return false
+	}
+	src := re.fn.New()
+	owner := holderOf(reflect.ValueOf(src).Elem(), o.Via, true)
+	w := reflect.New(oneofWrapper(owner, e.Go).Elem())
+	w.Elem().Field(0).SetFloat(math.NaN())
+	owner.FieldByName(o.Go).Set(w)
+	h.add("WriteEmptyNaN", "branch "+e.Attr+" = NaN")
+	O := re.emptyObject()
+	if p := safely(func() { re.fn.To(ctx, src, &O) }); p != "" {
+		violate(t, "C07/no-panic/copy-to/"+panicClass(re.view), "CopyTo panicked: %s\nhistory: %s", p, strings.Join(h.lines, " ; "))
+	}
+	for _, b := range re.view.Entries {
+		if b.Placeholder || b.F.Oneof != e.F.Oneof || b.Decl != e.Decl || !sameVia(b.Via, e.Via) {
+			continue
+		}
+		a, ok := O.Attrs[b.Attr]
+		if !ok {
+			violate(t, "C07/active-branch-non-null/"+entryClass(b, false, 0), "attribute %s was not written\nhistory: %s", b.Attr, strings.Join(h.lines, " ; "))
+		}
+		nf := reflect.ValueOf(a).FieldByName("Null")
+		if !nf.IsValid() {
+			continue
+		}
+		if b == e && nf.Bool() {
+			violate(t, "C07/active-branch-non-null/"+entryClass(b, false, 0), "active branch %s (payload NaN, which is not the zero value) is rendered as null\nhistory: %s", b.Attr, strings.Join(h.lines, " ; "))
+		}
+		if b != e && !nf.Bool() {
+			violate(t, "C07/inactive-branch-null/"+entryClass(b, false, 0), "inactive branch %s is not null while %s is active\nhistory: %s", b.Attr, e.Attr, strings.Join(h.lines, " ; "))
+		}
+	}
+	st.probe("nan-payload-in-active-branch")
+	return true
 }
